@@ -499,3 +499,195 @@ Proof.
     + exists abs. split; [left; reflexivity|split; apply Habs; assumption].
     + exists (l ++ abs). split; [left; reflexivity|split; apply in_or_app; right; apply Habs; assumption].
 Qed.
+
+(* ---------- same_name_and_arguments is an equivalence on fields with well-formed arguments ---------- *)
+(* 5.4.2 Argument Uniqueness and 5.6.3 hold for the field *)
+Definition args_wf (f : mx_fs) : Prop :=
+  NoDup (map fst (mf_args f)) /\ forall k v, In (k, v) (mf_args f) -> xv_value_unique v = true.
+
+Lemma streq_sym a b : streq a b = streq b a.
+Proof.
+  destruct (streq a b) eqn:E.
+  - apply streq_eq in E. subst. symmetry. apply streq_refl.
+  - destruct (streq b a) eqn:E'; [|reflexivity]. apply streq_eq in E'. subst. rewrite streq_refl in E. discriminate.
+Qed.
+
+Lemma by_name_find_key args n : mx_by_name args n = find_key n args.
+Proof.
+  unfold mx_by_name, find_key. induction args as [|a args IH]; cbn [find]; [reflexivity|].
+  rewrite (streq_sym (fst a) n). destruct (streq n (fst a)); [reflexivity|exact IH].
+Qed.
+
+(* the comparison as a statement *)
+Definition args_sub (a b : list argument) : Prop :=
+  forall k v, In (k, v) a -> exists w, find_key k b = Some (k, w) /\ mx_same_value w v = true.
+Definition args_keys_sub (b a : list argument) : Prop :=
+  forall k v, In (k, v) b -> exists w, find_key k a = Some (k, w).
+
+Lemma same_name_args_iff a b :
+  mx_same_name_and_arguments a b = true <->
+  mf_name a = mf_name b /\ args_sub (mf_args a) (mf_args b) /\ args_keys_sub (mf_args b) (mf_args a).
+Proof.
+  unfold mx_same_name_and_arguments, args_sub, args_keys_sub.
+  destruct (streq (mf_name a) (mf_name b)) eqn:En; cbn [negb].
+  - apply streq_eq in En. rewrite andb_true_iff, !forallb_forall. split.
+    + intros [H1 H2]. split; [exact En|]. split.
+      * intros k v Hin. specialize (H1 (k, v) Hin). cbn [fst snd] in H1. rewrite by_name_find_key in H1.
+        destruct (find_key k (mf_args b)) as [[k' w]|] eqn:E; [|discriminate].
+        destruct (find_key_some _ _ _ E) as [_ Hk]. cbn in Hk. subst k'. exists w. auto.
+      * intros k v Hin. specialize (H2 (k, v) Hin). cbn [fst] in H2. rewrite by_name_find_key in H2.
+        destruct (find_key k (mf_args a)) as [[k' w]|] eqn:E; [|discriminate].
+        destruct (find_key_some _ _ _ E) as [_ Hk]. cbn in Hk. subst k'. exists w. reflexivity.
+    + intros [_ [H1 H2]]. split.
+      * intros [k v] Hin. cbn [fst snd]. rewrite by_name_find_key. destruct (H1 k v Hin) as [w [E Hs]]. rewrite E. exact Hs.
+      * intros [k v] Hin. cbn [fst]. rewrite by_name_find_key. destruct (H2 k v Hin) as [w E]. rewrite E. reflexivity.
+  - split; [discriminate|]. intros [H _]. rewrite H, streq_refl in En. discriminate.
+Qed.
+
+Lemma same_name_args_refl a : args_wf a -> mx_same_name_and_arguments a a = true.
+Proof.
+  intros [Hnd Hu]. apply same_name_args_iff. split; [reflexivity|]. split.
+  - intros k v Hin. exists v. split; [apply find_key_nodup; assumption|apply same_value_refl; exact (Hu k v Hin)].
+  - intros k v Hin. exists v. apply find_key_nodup; assumption.
+Qed.
+
+Lemma same_name_args_sym a b : args_wf a -> args_wf b ->
+  mx_same_name_and_arguments a b = true -> mx_same_name_and_arguments b a = true.
+Proof.
+  intros [Hnda Hua] [Hndb Hub] H. apply same_name_args_iff in H. destruct H as [Hn [H1 H2]].
+  apply same_name_args_iff. split; [congruence|]. split.
+  - intros k v Hin. destruct (H2 k v Hin) as [w Ew]. exists w. split; [exact Ew|].
+    destruct (find_key_some _ _ _ Ew) as [Hinw _].
+    destruct (H1 k w Hinw) as [v' [Ev' Hs]].
+    rewrite (find_key_nodup k v (mf_args b) Hndb Hin) in Ev'. injection Ev' as <-.
+    apply same_value_sym; [exact (Hub k v Hin)|exact (Hua k w Hinw)|exact Hs].
+  - intros k v Hin. destruct (H1 k v Hin) as [w [Ew _]]. exists w. exact Ew.
+Qed.
+
+Lemma same_name_args_trans a b c : args_wf a -> args_wf b -> args_wf c ->
+  mx_same_name_and_arguments a b = true -> mx_same_name_and_arguments b c = true ->
+  mx_same_name_and_arguments a c = true.
+Proof.
+  intros [Hnda Hua] [Hndb Hub] [Hndc Huc] H H'.
+  apply same_name_args_iff in H. apply same_name_args_iff in H'.
+  destruct H as [Hn [H1 H2]]. destruct H' as [Hn' [H1' H2']].
+  apply same_name_args_iff. split; [congruence|]. split.
+  - intros k v Hin. destruct (H1 k v Hin) as [w [Ew Hs]]. destruct (find_key_some _ _ _ Ew) as [Hinw _].
+    destruct (H1' k w Hinw) as [u [Eu Hs']]. destruct (find_key_some _ _ _ Eu) as [Hinu _].
+    exists u. split; [exact Eu|].
+    apply (same_value_trans u w v); [exact (Huc k u Hinu)|exact (Hub k w Hinw)|exact (Hua k v Hin)|exact Hs'|exact Hs].
+  - intros k v Hin. destruct (H2' k v Hin) as [w Ew]. destruct (find_key_some _ _ _ Ew) as [Hinw _].
+    exact (H2 k w Hinw).
+Qed.
+
+(* ---------- same_output_type_shape is an equivalence on fields whose return types are defined ---------- *)
+(* the "shape" of a type: its list / non-null structure, and for the named type at the bottom its name if it
+   is a leaf type, nothing if it is composite *)
+Fixpoint mx_sig (s : schema) (t : ty) : list bool * (bool * option str) :=
+  let bottom (nn : bool) (n : str) :=
+    ([], (nn, match sch_get_type s n with Some d => if xv_is_leaf d then Some n else None | None => None end)) in
+  match t with
+  | TNamed n => bottom false n
+  | TNonNullNamed n => bottom true n
+  | TList i => let '(w, b) := mx_sig s i in (false :: w, b)
+  | TNonNullList i => let '(w, b) := mx_sig s i in (true :: w, b)
+  end.
+
+(* the named type at the bottom is an output type of the schema: a leaf or a composite type *)
+Definition ty_defined (s : schema) (t : ty) : Prop :=
+  exists d, sch_get_type s (inner_named_type t) = Some d /\ (xv_is_leaf d = true \/ xv_is_composite d = true).
+
+Lemma leaf_not_composite d : xv_is_leaf d = true -> xv_is_composite d = false.
+Proof. destruct d; cbn; congruence. Qed.
+
+Lemma shape_bottom s nn nn' na nb :
+  ty_defined s (TNamed na) -> ty_defined s (TNamed nb) ->
+  (Bool.eqb nn nn' &&
+   match sch_get_type s na, sch_get_type s nb with
+   | Some da, Some db =>
+       if mx_scalar_or_enum da && mx_scalar_or_enum db then streq (et_name da) (et_name db)
+       else xv_is_composite da && xv_is_composite db
+   | _, _ => true
+   end = true) <->
+  (nn, match sch_get_type s na with Some d => if xv_is_leaf d then Some na else None | None => None end) =
+  (nn', match sch_get_type s nb with Some d => if xv_is_leaf d then Some nb else None | None => None end).
+Proof.
+  intros [da [Ea Ka]] [db [Eb Kb]]. cbn [inner_named_type] in Ea, Eb. rewrite Ea, Eb.
+  pose proof (sch_get_type_name _ _ _ Ea) as Na. pose proof (sch_get_type_name _ _ _ Eb) as Nb.
+  unfold mx_scalar_or_enum. rewrite andb_true_iff, Bool.eqb_true_iff.
+  destruct (xv_is_leaf da) eqn:La; destruct (xv_is_leaf db) eqn:Lb; cbn [andb].
+  - rewrite Na, Nb. split.
+    + intros [-> H]. apply streq_eq in H. congruence.
+    + intros [= -> ->]. split; [reflexivity|apply streq_refl].
+  - destruct Kb as [Kb|Kb]; [congruence|]. rewrite (leaf_not_composite da La). cbn [andb].
+    split; [intros [_ H]; discriminate|intros H; discriminate H].
+  - destruct Ka as [Ka|Ka]; [congruence|]. rewrite (leaf_not_composite db Lb), andb_false_r.
+    split; [intros [_ H]; discriminate|intros H; discriminate H].
+  - destruct Ka as [Ka|Ka]; [congruence|]. destruct Kb as [Kb|Kb]; [congruence|]. rewrite Ka, Kb. cbn [andb].
+    split; [intros [-> _]; reflexivity|intros [= ->]; auto].
+Qed.
+
+Lemma ty_defined_inner s t : ty_defined s t <-> ty_defined s (TNamed (inner_named_type t)).
+Proof. unfold ty_defined. cbn [inner_named_type]. tauto. Qed.
+
+Lemma shape_sig s (ta tb : ty) : ty_defined s ta -> ty_defined s tb ->
+  (match mx_unwrap_lists ta tb with
+   | None => false
+   | Some (ta', tb') =>
+       match ta', tb' with
+       | TNonNullNamed na, TNonNullNamed nb | TNamed na, TNamed nb =>
+           match sch_get_type s na, sch_get_type s nb with
+           | Some da, Some db =>
+               if mx_scalar_or_enum da && mx_scalar_or_enum db then streq (et_name da) (et_name db)
+               else xv_is_composite da && xv_is_composite db
+           | _, _ => true
+           end
+       | _, _ => false
+       end
+   end = true) <-> mx_sig s ta = mx_sig s tb.
+Proof.
+  revert tb. induction ta as [na|na|ia IH|ia IH]; intros tb Da Db; destruct tb as [nb|nb|ib|ib];
+    cbn [mx_unwrap_lists mx_sig]; try (split; [discriminate|]);
+    try (destruct (mx_sig s ia) as [wa ba] eqn:Sa); try (destruct (mx_sig s ib) as [wb bb] eqn:Sb);
+    try (intros E; discriminate E).
+  - pose proof (shape_bottom s false false na nb Da Db) as H. cbn [Bool.eqb andb] in H. rewrite H.
+    split; intros E; congruence.
+  - assert (Da' : ty_defined s (TNamed na)) by (apply ty_defined_inner in Da; exact Da).
+    assert (Db' : ty_defined s (TNamed nb)) by (apply ty_defined_inner in Db; exact Db).
+    pose proof (shape_bottom s true true na nb Da' Db') as H. cbn [Bool.eqb andb] in H. rewrite H.
+    split; intros E; congruence.
+  - assert (Da' : ty_defined s ia) by (apply ty_defined_inner; apply ty_defined_inner in Da; exact Da).
+    assert (Db' : ty_defined s ib) by (apply ty_defined_inner; apply ty_defined_inner in Db; exact Db).
+    rewrite (IH ib Da' Db'), Sb. split; intros E; congruence.
+  - assert (Da' : ty_defined s ia) by (apply ty_defined_inner; apply ty_defined_inner in Da; exact Da).
+    assert (Db' : ty_defined s ib) by (apply ty_defined_inner; apply ty_defined_inner in Db; exact Db).
+    rewrite (IH ib Da' Db'), Sb. split; intros E; congruence.
+Qed.
+
+Definition field_ty_defined (s : schema) (f : mx_fs) : Prop := ty_defined s (fd_ty (mf_def f)).
+
+Lemma same_shape_sig s a b : field_ty_defined s a -> field_ty_defined s b ->
+  (mx_same_output_type_shape s a b = true <-> mx_sig s (fd_ty (mf_def a)) = mx_sig s (fd_ty (mf_def b))).
+Proof. intros Da Db. unfold mx_same_output_type_shape. apply shape_sig; assumption. Qed.
+
+(* ---------- the two first-against-rest loops of selection.rs decide all pairs ---------- *)
+Lemma first_vs_rest_arguments group : (forall f, In f group -> args_wf f) ->
+  (mx_first_vs_rest mx_same_name_and_arguments group = true <->
+   forall a b, In a group -> In b group -> mx_same_name_and_arguments a b = true).
+Proof.
+  intros Hwf. apply first_vs_rest_all_pairs.
+  - intros a Ha. apply same_name_args_refl. auto.
+  - intros a b Ha Hb. apply same_name_args_sym; auto.
+  - intros a b c Ha Hb Hc. apply same_name_args_trans; auto.
+Qed.
+
+Lemma first_vs_rest_shape s group : (forall f, In f group -> field_ty_defined s f) ->
+  (mx_first_vs_rest (mx_same_output_type_shape s) group = true <->
+   forall a b, In a group -> In b group -> mx_same_output_type_shape s a b = true).
+Proof.
+  intros Hd. apply first_vs_rest_all_pairs.
+  - intros a Ha. apply same_shape_sig; auto.
+  - intros a b Ha Hb H. apply same_shape_sig; auto. symmetry. apply same_shape_sig in H; auto.
+  - intros a b c Ha Hb Hc H1 H2. apply same_shape_sig; auto.
+    apply same_shape_sig in H1; auto. apply same_shape_sig in H2; auto. congruence.
+Qed.
